@@ -347,7 +347,7 @@ func func_First(rtParams FunctionParameterTypes, val any) (any, error) {
 	switch v.Kind() {
 	case reflect.Slice, reflect.Array:
 		if v.Len() > 0 {
-			return convertToDecimalIfNumber(v.Index(0).Interface()), nil
+			return convertNumberKindsToDecimal(v.Index(0).Interface()), nil
 		} else {
 			return nil, fmt.Errorf("nothing in array")
 		}
@@ -376,7 +376,7 @@ func func_Last(rtParams FunctionParameterTypes, val any) (any, error) {
 	switch v.Kind() {
 	case reflect.Slice, reflect.Array:
 		if v.Len() > 0 {
-			return convertToDecimalIfNumber(v.Index(v.Len() - 1).Interface()), nil
+			return convertNumberKindsToDecimal(v.Index(v.Len() - 1).Interface()), nil
 		} else {
 			return nil, fmt.Errorf("nothing in array")
 		}
@@ -417,7 +417,7 @@ func func_Index(rtParams FunctionParameterTypes, val any) (any, error) {
 			return nil, fmt.Errorf("nothing in array")
 		}
 
-		return convertToDecimalIfNumber(v.Index(int(param.IntPart())).Interface()), nil
+		return convertNumberKindsToDecimal(v.Index(int(param.IntPart())).Interface()), nil
 	}
 
 	return false, fmt.Errorf("not array")
